@@ -102,56 +102,55 @@ def lowestRetained (s : RegState) (id : Nat) : Nat :=
 
 /-- `ValidateBasic` of the register message -/
 def vbRegister (s : RegState) (moniker name genesis : String) (owner : AddrTok) : M Unit := do
-  if owner.decode.isNone then throw eInvalidAddress
+  let _ ← owner.decodeM
   match s.kind with
-  | .wrk =>
-    if moniker.utf8ByteSize = 0 then throw (s.mErr 2)
-    if name.utf8ByteSize > 128 then throw (s.mErr 3)
-    if moniker.utf8ByteSize > 64 then throw (s.mErr 3)
-    if genesis.utf8ByteSize > 66 then throw (s.mErr 3)
-  | .bcn =>
-    if moniker.utf8ByteSize = 0 || name.utf8ByteSize = 0 then throw (s.mErr 2)
-    if name.utf8ByteSize > 128 then throw (s.mErr 3)
-    if moniker.utf8ByteSize > 64 then throw (s.mErr 3)
+  | .wrk => do
+    require (moniker.utf8ByteSize ≠ 0) (s.mErr 2)
+    require (name.utf8ByteSize ≤ 128) (s.mErr 3)
+    require (moniker.utf8ByteSize ≤ 64) (s.mErr 3)
+    require (genesis.utf8ByteSize ≤ 66) (s.mErr 3)
+  | .bcn => do
+    require (moniker.utf8ByteSize ≠ 0 && name.utf8ByteSize ≠ 0) (s.mErr 2)
+    require (name.utf8ByteSize ≤ 128) (s.mErr 3)
+    require (moniker.utf8ByteSize ≤ 64) (s.mErr 3)
 
-/-- message server `RegisterWrkChain` / `RegisterBeacon`; returns the assigned id -/
-def register (s : RegState) (nowSec : Nat) (moniker name genesis type : String) (owner : AddrTok) :
-    M (RegState × Nat) := do
-  let ownerAddr ← match owner.decode with
-    | some a => pure a
-    | none => throw eInvalidAddress
-  if name.utf8ByteSize > 128 then throw (s.mErr 3)
-  if moniker.utf8ByteSize > 64 then throw (s.mErr 3)
-  if moniker.utf8ByteSize = 0 then throw (s.mErr 2)
+/-- the state after a successful registration of `id` -/
+def registered (s : RegState) (nowSec : Nat) (moniker name genesis type : String) (ownerAddr : Addr) : RegState :=
   let id := s.nextId
   let m : RegMeta := {
     id := id, owner := AddrTok.canon ownerAddr, moniker := moniker, name := name,
     genesis := (match s.kind with | .wrk => genesis | .bcn => ""),
     type := (match s.kind with | .wrk => type | .bcn => ""),
     regTime := nowSec, last := 0, num := 0, lowest := 0 }
-  pure ({ s with
+  { s with
     regs := AL.insert s.regs id m
     limits := AL.insert s.limits id s.params.defLimit
-    nextId := addU64 id 1 }, id)
+    nextId := addU64 id 1 }
+
+/-- message server `RegisterWrkChain` / `RegisterBeacon`; returns the assigned id -/
+def register (s : RegState) (nowSec : Nat) (moniker name genesis type : String) (owner : AddrTok) :
+    M (RegState × Nat) := do
+  let ownerAddr ← owner.decodeM
+  require (name.utf8ByteSize ≤ 128) (s.mErr 3)
+  require (moniker.utf8ByteSize ≤ 64) (s.mErr 3)
+  require (moniker.utf8ByteSize ≠ 0) (s.mErr 2)
+  pure (s.registered nowSec moniker name genesis type ownerAddr, s.nextId)
 
 /-- `ValidateBasic` of the record message (`subTime` only meaningful for bcn) -/
 def vbRecord (s : RegState) (id key : Nat) (r : Rec) (owner : AddrTok) : M Unit := do
-  if owner.decode.isNone then throw eInvalidAddress
+  let _ ← owner.decodeM
   match s.kind with
-  | .wrk =>
-    if id = 0 then throw (s.mErr 5)
-    if r.h0.utf8ByteSize = 0 then throw (s.mErr 2)
-    if key = 0 then throw (s.mErr 2)
-    if r.h0.utf8ByteSize > 66 then throw (s.mErr 3)
-    if r.h1.utf8ByteSize > 66 then throw (s.mErr 3)
-    if r.h2.utf8ByteSize > 66 then throw (s.mErr 3)
-    if r.h3.utf8ByteSize > 66 then throw (s.mErr 3)
-    if r.h4.utf8ByteSize > 66 then throw (s.mErr 3)
-  | .bcn =>
-    if id = 0 then throw (s.mErr 2)
-    if r.h0.utf8ByteSize = 0 then throw (s.mErr 2)
-    if r.subTime = 0 then throw (s.mErr 2)
-    if r.h0.utf8ByteSize > 66 then throw (s.mErr 3)
+  | .wrk => do
+    require (id ≠ 0) (s.mErr 5)
+    require (r.h0.utf8ByteSize ≠ 0) (s.mErr 2)
+    require (key ≠ 0) (s.mErr 2)
+    require (r.h0.utf8ByteSize ≤ 66 && r.h1.utf8ByteSize ≤ 66 && r.h2.utf8ByteSize ≤ 66 &&
+             r.h3.utf8ByteSize ≤ 66 && r.h4.utf8ByteSize ≤ 66) (s.mErr 3)
+  | .bcn => do
+    require (id ≠ 0) (s.mErr 2)
+    require (r.h0.utf8ByteSize ≠ 0) (s.mErr 2)
+    require (r.subTime ≠ 0) (s.mErr 2)
+    require (r.h0.utf8ByteSize ≤ 66) (s.mErr 3)
 
 /-- `RecordNewWrkchainHashes` (after the handler's checks) -/
 def recordWrk (s : RegState) (nowSec : Nat) (m : RegMeta) (height : Nat) (r : Rec) : RegState :=
@@ -187,61 +186,51 @@ def recordBcn (s : RegState) (m : RegMeta) (hash : String) (submitTime : Nat) : 
     let m' := { m with last := last1, lowest := first1, num := num1 }
     ({ s1 with regs := AL.insert s1.regs id m' }, tsid)
 
+/-- the registration `id` when it exists and `ownerAddr` is its owner (`IsAuthorisedToRecord`) -/
+def ownedBy (s : RegState) (id : Nat) (ownerAddr : Addr) : M RegMeta :=
+  match AL.find? s.regs id with
+  | none => .error (s.mErr 4)
+  | some m => if m.owner.decode = some ownerAddr then .ok m else .error (s.mErr 6)
+
 /-- message server `RecordWrkChainBlock` / `RecordBeaconTimestamp`; `wall` is the wall-clock oracle
 used only when the beacon submit time is zero (unreachable behind `ValidateBasic`). Returns the
 record key. -/
 def record (s : RegState) (nowSec : Nat) (wall : Nat) (id key : Nat) (r : Rec) (owner : AddrTok) :
     M (RegState × Nat) := do
-  let ownerAddr ← match owner.decode with
-    | some a => pure a
-    | none => throw eInvalidAddress
+  let ownerAddr ← owner.decodeM
   match s.kind with
-  | .wrk =>
-    if key = 0 then throw (s.mErr 5)
-    if r.h0.utf8ByteSize > 66 then throw (s.mErr 3)
-    if r.h1.utf8ByteSize > 66 then throw (s.mErr 3)
-    if r.h2.utf8ByteSize > 66 then throw (s.mErr 3)
-    if r.h3.utf8ByteSize > 66 then throw (s.mErr 3)
-    if r.h4.utf8ByteSize > 66 then throw (s.mErr 3)
-    match AL.find? s.regs id with
-    | none => throw (s.mErr 4)
-    | some m =>
-      if m.owner.decode ≠ some ownerAddr then throw (s.mErr 6)
-      if !(key > m.last) then throw (s.mErr 7)
-      pure (s.recordWrk nowSec m key r, key)
-  | .bcn =>
-    if r.h0.utf8ByteSize > 66 then throw (s.mErr 3)
-    match AL.find? s.regs id with
-    | none => throw (s.mErr 4)
-    | some m =>
-      if m.owner.decode ≠ some ownerAddr then throw (s.mErr 6)
-      let subtime := if r.subTime = 0 then wall else r.subTime
-      pure (s.recordBcn m r.h0 subtime)
+  | .wrk => do
+    require (key ≠ 0) (s.mErr 5)
+    require (r.h0.utf8ByteSize ≤ 66 && r.h1.utf8ByteSize ≤ 66 && r.h2.utf8ByteSize ≤ 66 &&
+             r.h3.utf8ByteSize ≤ 66 && r.h4.utf8ByteSize ≤ 66) (s.mErr 3)
+    let m ← s.ownedBy id ownerAddr
+    require (key > m.last) (s.mErr 7)
+    pure (s.recordWrk nowSec m key r, key)
+  | .bcn => do
+    require (r.h0.utf8ByteSize ≤ 66) (s.mErr 3)
+    let m ← s.ownedBy id ownerAddr
+    pure (s.recordBcn m r.h0 (if r.subTime = 0 then wall else r.subTime))
 
 def vbPurchase (s : RegState) (id number : Nat) (owner : AddrTok) : M Unit := do
-  if owner.decode.isNone then throw eInvalidAddress
-  if id = 0 then throw (s.mErr 2)
-  if number = 0 then throw (s.mErr 2)
+  let _ ← owner.decodeM
+  require (id ≠ 0) (s.mErr 2)
+  require (number ≠ 0) (s.mErr 2)
 
 /-- message server `Purchase*StateStorage`; returns remaining purchasable slots -/
 def purchase (s : RegState) (id number : Nat) (owner : AddrTok) : M (RegState × Nat) := do
-  let ownerAddr ← match owner.decode with
-    | some a => pure a
-    | none => throw eInvalidAddress
-  if number = 0 then throw (s.mErr 3)
-  match AL.find? s.regs id with
-  | none => throw (s.mErr 4)
-  | some m =>
-    if m.owner.decode ≠ some ownerAddr then throw (s.mErr 6)
-    let (limit, _) := s.limitOf id
-    let after := addU64 limit number          -- uint64 addition; a wrapped sum is rejected
-    if after > s.params.maxLimit ∨ after < limit then throw (s.mErr 8)
-    let s' := { s with limits := AL.insert s.limits id after }
-    pure (s', s'.maxPurchasable id)
+  let ownerAddr ← owner.decodeM
+  require (number ≠ 0) (s.mErr 3)
+  let _ ← s.ownedBy id ownerAddr
+  let limit := (s.limitOf id).1
+  let after := addU64 limit number          -- uint64 addition; a wrapped sum is rejected
+  require (after ≤ s.params.maxLimit && limit ≤ after) (s.mErr 8)
+  let s' := { s with limits := AL.insert s.limits id after }
+  pure (s', s'.maxPurchasable id)
 
 /-- `SetParams` -/
-def setParams (s : RegState) (p : RegParams) : M RegState :=
-  if p.validate then pure { s with params := p } else throw (.err "undefined" 1)
+def setParams (s : RegState) (p : RegParams) : M RegState := do
+  require p.validate (.err "undefined" 1)
+  pure { s with params := p }
 
 end RegState
 end Mainchain
